@@ -47,6 +47,12 @@ CHECKS = {
             "compared before/after, plus the check/print/convert entry points on the full valid+invalid layout grammar; a signal, "
             "sanitizer report, hang, modified input or unstable result is a violation.",
             "bounded exhaustive exploration of operation histories under sanitizers (ASan/UBSan as the memory oracle)"),
+    "C13": ("exploration", "E2", "All 690 specialisations of the 198 kernels of kernel-specification.yml: the executable Python definition is "
+            "the reference; inputs are enumerated lazily (an array element becomes a choice point when the definition first reads it) over "
+            "per-type domains incl. width extremes, under role preconditions; the compiled kernel runs on identical inputs in exact-extent "
+            "buffers with guard zones; status, every written output, guard zones and cross-specialisation agreement are compared. Kernels "
+            "without a definition get the extent / crash / filler-independence / cross-specialisation checks only.",
+            "bounded exhaustive (deviation-bounded, lazily branching) enumeration of kernel inputs against the executable specification"),
     "C14": ("model_checking", "E3", "Explicit-state search over ArrayBuilder command histories (17-command alphabet quick, 31 thorough; well- "
             "and ill-nested; depth 5 / 6) with the reference builder's state as the state key; every transition replayed on a fresh real "
             "ArrayBuilder under four buffer-growth settings; length, to_list(snapshot), type-as-a-function-of-state, immutability of "
@@ -61,6 +67,12 @@ CHECKS = {
             "reference; Form JSON round trips (verbose and terse) incl. a parameter alphabet of JSON values on every node class; printed "
             "types are re-parsed by the repository's type parser; range slices keep the type and elements match the item type.",
             "bounded exhaustive enumeration of layouts/forms/types on the real code, reference type-skeleton oracle"),
+    "C19": ("model_checking", "E3", "Programs over the whole built-in vocabulary (operand tuples x words and word pairs, control-flow "
+            "templates, typed reads/writes over prefix-closed byte strings, one-token mutations for the compile-error half) x 32/64-bit "
+            "machines x stack/recursion/output-growth settings x execution schedules (run, begin+resume, single steps, step^k+resume, "
+            "call at pauses, decompile+recompile, run twice); the observable state after every segment is compared between all schedule "
+            "paths (confluence) and with a reference interpreter.",
+            "explicit exploration of the schedule graph of real ForthMachine executions, reference-interpreter oracle"),
 }
 
 ENGINES = [
@@ -68,10 +80,13 @@ ENGINES = [
      "serves_properties": ["C04", "C16"],
      "kind_free_text": "the repository's own Python layer (/repo/src/awkward) imported unmodified on top of a pure-Python mirror of "
                        "awkward._ext that forwards every behaviour to the freshly built libawkward"},
-    {"name": "E3", "path": "checks/c14_builders.py model/refbuilder.py mirror/builder.py bridge/akb_builder.cpp",
-     "serves_properties": ["C14"],
+    {"name": "E3", "path": "checks/c14_builders.py model/refbuilder.py mirror/builder.py bridge/akb_builder.cpp checks/c19_forth.py model/refforth.py mirror/forth.py bridge/akb_forth.cpp",
+     "serves_properties": ["C14", "C19"],
      "kind_free_text": "history explorer: breadth-first search over command sequences against stateful C++ objects with a reference "
                        "model stepped in lock-step"},
+    {"name": "E2", "path": "mc/e2.py model/kernelspec.py checks/c13_kernels.py checks/c13_raw.py",
+     "serves_properties": ["C13"],
+     "kind_free_text": "kernel explorer: choice-sequence enumeration of inputs of the compiled cpu-kernels against kernel-specification.yml"},
     {"name": "E1", "path": "mc/e1.py mc/opalpha.py model/ checks/c0*.py checks/c11_validity.py",
      "serves_properties": sorted(k for k, v in CHECKS.items() if v[1].startswith("E1")),
      "kind_free_text": "explicit-state exploration of (physical layout, operation) transitions on the real libawkward built from /repo, "
